@@ -22,7 +22,6 @@ pub enum Ev<E> {
     Stopped(bool, Option<E>),
 }
 
-pub enum Reason { ActorStopped, Timeout, ReplyDropped, Other }
 
 /// Message views carried by `Enq` / `Rejected` effects.
 pub enum MsgView {
@@ -34,6 +33,11 @@ pub enum MsgView {
 }
 
 pub enum AwaitKind { Send, Reply, Join, Recv, Other }
+
+pub enum OpaqueTag {
+    BlockingTellTimeout { pid: int, d: Duration, chan: int },
+    BlockingAskTimeout { pid: int, d: Duration, chan: int },
+}
 
 pub enum HookTag { Handle(int), TellResult(int), Start, Run, Stop }
 
@@ -51,7 +55,15 @@ pub enum Eff {
     ReplyClosed(int),              // asker observed the reply sender dropped
     NewReq(int),
     NewChan(int, nat),             // (chan id, capacity)
-    DeadLetter(Identity, int, Reason, Seq<char>),   // (identity, message type id, reason, operation)
+    /// the structured dead-letter log line: (actor id, actor type name, message type name, reason, operation)
+    DeadLetterLog(u64, Seq<char>, Seq<char>, DeadLetterReason, Seq<char>),
+    FetchAdd(int, u64),            // atomic RMW add on cell
+    CellSet(int, usize, bool),     // OnceLock::set(cell, value) -> succeeded?
+    CellGet(int, Option<usize>),
+    Lock, Unlock,
+    GraphInsert(u64, Identity),
+    GraphRemove(u64),
+    Opaque(OpaqueTag),             // a call of a function that is NOT under contract
     Spawned(int, int, int),        // lifecycle task spawned on (mailbox chan, control chan, args id)
     Released(int),                 // a strong ActorRef to mailbox chan was dropped explicitly
     TimeoutArmed(Duration),
@@ -346,7 +358,8 @@ pub mod mpsc {
     /// A1: bounded channel of capacity `buffer` (> 0, panics otherwise inside tokio)
     #[verifier::external_body]
     pub fn channel<T>(buffer: usize, w: &mut World) -> (r: (Sender<T>, Receiver<T>))
-        requires buffer > 0,
+        requires
+            buffer > 0, /*L:mpsc.channel.capacity_positive*/
         ensures
             r.0.chan() == r.1.chan(),
             final(w).log() == old(w).log().push(Eff::NewChan(r.0.chan(), buffer as nat)),
@@ -587,3 +600,76 @@ pub trait VxDrop: Sized {
 pub fn drop<X: VxDrop>(x: X, w: &mut World)
     ensures x.drop_eff(*old(w), *final(w)),
 { }
+
+// ---------------------------------------------------------------- std::sync::atomic (A10)
+pub enum Ordering { Relaxed, Release, Acquire, AcqRel, SeqCst }
+
+#[verifier::external_body]
+pub struct AtomicU64 { _p: () }
+impl AtomicU64 {
+    pub uninterp spec fn cell(&self) -> int;
+    /// atomic RMW: returns the previous value; every later fetch_add on this cell returns a value >= r + val
+    /// (no wrap-around: fewer than 2^64 increments, stated assumption)
+    #[verifier::external_body]
+    pub fn fetch_add(&self, val: u64, order: Ordering, w: &mut World) -> (r: u64)
+        ensures
+            final(w).log() == old(w).log().push(Eff::FetchAdd(self.cell(), val)),
+            self.cell() == cell_ACTOR_IDS() ==> (r as int >= old(w).id_floor() && final(w).id_floor() == r as int + val as int),
+            self.cell() != cell_ACTOR_IDS() ==> final(w).id_floor() == old(w).id_floor(),
+            self.cell() == cell_DEAD_LETTER_COUNT() ==> final(w).dl_count() == old(w).dl_count() + val as nat,
+            self.cell() != cell_DEAD_LETTER_COUNT() ==> final(w).dl_count() == old(w).dl_count(),
+            final(w).current_actor() == old(w).current_actor(), final(w).lock_held() == old(w).lock_held(),
+            final(w).poisoned() == old(w).poisoned(), final(w).graph() == old(w).graph(), final(w).mmon() == old(w).mmon(),
+            final(w).cap_cell() == old(w).cap_cell(), final(w).chan_floor() == old(w).chan_floor(),
+            final(w).own_strong() == old(w).own_strong(),
+    { unimplemented!() }
+}
+pub open spec fn cell_ACTOR_IDS() -> int { 1 }
+pub open spec fn cell_DEAD_LETTER_COUNT() -> int { 2 }
+pub open spec fn cell_DEFAULT_CAPACITY() -> int { 3 }
+
+// ---------------------------------------------------------------- std::sync::OnceLock<usize>
+#[verifier::external_body]
+#[verifier::reject_recursive_types(T)]
+pub struct OnceLock<T> { _p: PhantomData<T> }
+impl OnceLock<usize> {
+    pub uninterp spec fn cell(&self) -> int;
+    /// set-once: Ok iff the cell was empty; the stored value never changes afterwards
+    #[verifier::external_body]
+    pub fn set(&self, value: usize, w: &mut World) -> (r: core::result::Result<(), usize>)
+        requires
+            value > 0, /*L:capacity_cell.only_nonzero_values*/
+        ensures
+            final(w).log() == old(w).log().push(Eff::CellSet(self.cell(), value, r is Ok)),
+            r is Ok ==> final(w).cap_cell() == Some(value),
+            r is Err ==> final(w).cap_cell() == old(w).cap_cell() && old(w).cap_cell() is Some,
+            r is Ok ==> old(w).cap_cell() is None,
+            final(w).current_actor() == old(w).current_actor(), final(w).lock_held() == old(w).lock_held(),
+            final(w).poisoned() == old(w).poisoned(), final(w).graph() == old(w).graph(), final(w).mmon() == old(w).mmon(),
+            final(w).id_floor() == old(w).id_floor(), final(w).chan_floor() == old(w).chan_floor(),
+            final(w).dl_count() == old(w).dl_count(), final(w).own_strong() == old(w).own_strong(),
+    { unimplemented!() }
+    #[verifier::external_body]
+    pub fn get(&self, w: &mut World) -> (r: Option<&usize>)
+        ensures
+            final(w).log() == old(w).log().push(Eff::CellGet(self.cell(), match r { Some(v) => Some(*v), None => None })),
+            (match r { Some(v) => Some(*v), None => None::<usize> }) == old(w).cap_cell(),
+            r matches Some(v) ==> *v > 0,   // rely: every writer of the cell stores a non-zero value (checked at each `set`)
+            same_ambient(*old(w), *final(w)),
+    { unimplemented!() }
+}
+
+// ---------------------------------------------------------------- clocks (A11)
+#[verifier::external_body]
+#[derive(Clone, Copy)]
+pub struct Instant { _p: () }
+impl Instant {
+    #[verifier::external_body]
+    pub fn now() -> Instant { unimplemented!() }
+    #[verifier::external_body]
+    pub fn elapsed(&self) -> Duration { unimplemented!() }
+}
+
+// ---------------------------------------------------------------- std library specs missing from vstd
+pub assume_specification<'a, T: Copy>[ Option::<&'a T>::copied ](o: Option<&'a T>) -> (r: Option<T>)
+    ensures r == (match o { Some(v) => Some(*v), None => None::<T> });
